@@ -222,6 +222,43 @@ def check_pair(ctx, ast, text, smi, how, mol, alt_texts=()):
                            'got': repr(r2.get('ok', r2.get('exc')))[:200]})
             return 'layout'
         ctx.count('rerender_relations')
+    # the SAME molecule object edited in place (one hydrogen-bearing carbon
+    # made a radical centre -- no atom added or removed) and asked again with
+    # the same query object
+    if _QUERIES['n'] % 9 == 0 and not case.get('edited'):
+        try:
+            rw = Chem.RWMol(mol)
+            first = observe(q.GetQueryMatches, rw)
+            tgt = [a for a in rw.GetAtoms() if a.GetAtomicNum() == 6 and
+                   a.GetTotalNumHs() > 0 and a.GetNumRadicalElectrons() == 0]
+            if 'ok' in first and tgt:
+                a = tgt[0]
+                nh = a.GetTotalNumHs()
+                a.SetNoImplicit(True)
+                a.SetNumExplicitHs(nh - 1)
+                a.SetNumRadicalElectrons(1)
+                rw.UpdatePropertyCache(strict=False)
+                second = observe(q.GetQueryMatches, rw)
+                ctx.evals()
+                frozen = Chem.Mol(rw)
+                want2, nov2 = R.match(ast, frozen, facts=R.Facts(
+                    Chem.AddHs(frozen)))
+                if not nov2 and len(want2) < 10000:
+                    got2 = set(tuple(int(i) for i in t)
+                               for t in second.get('ok', ()))
+                    if 'exc' in second or got2 != want2:
+                        ctx.violation('match set after the molecule object '
+                                      'was edited in place differs from the '
+                                      'denotation on the edited molecule',
+                                      dict(case, edited='C-H -> C. at atom %d'
+                                           % a.GetIdx()),
+                                      {'n_real': len(got2),
+                                       'n_reference': len(want2),
+                                       'raised': second.get('exc')})
+                        return 'edited'
+                    ctx.count('molecules_edited_in_place_and_requeried')
+        except Exception:
+            pass
     if got:
         ctx.nontrivial([text, smi, how])
         ctx.count('pairs_with_matches')
